@@ -198,3 +198,95 @@ func H20_Select() {
 	verif.Assert(len(again) == 0, "and to every peer only once")
 	verif.Reach("end")
 }
+
+// H20_Feed: the link-state graph built the way it arrives: on a real Core with DTLSR, peer a (and optionally peer b)
+// appear as neighbours, then up to `updates` link-state bundles arrive through NotifyNewBundle, each from a or b with
+// a timestamp from {1,2} and an arbitrary subset of the remaining nodes {b, d} resp. {d} as live links - so later
+// bundles add nodes that were unknown before, withdraw links, arrive out of order or with equal timestamps. After the
+// recompute job the table is compared with reachability in the graph the accepted data (newer timestamp wins, first
+// one stays on a tie) describes: a destination is in the table exactly when a path exists, and the next hop is an own
+// neighbour from which the destination is reachable. (All links are live here, so every path has cost 0; costs are
+// the subject of H20_Table.)
+func H20_Feed() {
+	var log []sendRec
+	c, _ := coreWithPeers("dtlsr", 0, 0, &log)
+	defer c.Close()
+	d := c.routing.(*DTLSR)
+	names := []string{"dtn://this/", "dtn://a/", "dtn://b/", "dtn://d/"}
+	var ids []bpv7.EndpointID
+	for _, s := range names {
+		ids = append(ids, bpv7.MustNewEndpointID(s))
+	}
+	const nn = 4
+	var adj [nn][nn]bool
+	ma := newMockCLA("a", &log)
+	ma.peer = ids[1]
+	d.ReportPeerAppeared(ma)
+	adj[0][1] = true
+	if verif.Bool("bneighbour") {
+		mb := newMockCLA("b", &log)
+		mb.peer = ids[2]
+		d.ReportPeerAppeared(mb)
+		adj[0][2] = true
+	}
+	var have [nn]bool
+	var haveTs [nn]uint64
+	nu := verif.Size("updates", 1, verif.Param("updates", 3))
+	for u := 0; u < nu; u++ {
+		src := 1 + verif.Choose(nm("src", u), 2)
+		ts := uint64(1 + verif.Choose(nm("ts", u), 2))
+		peers := map[bpv7.EndpointID]bpv7.DtnTime{}
+		var row [nn]bool
+		for j := src + 1; j < nn; j++ {
+			if verif.Bool(nm("l"+nm("_", u)+"_", j)) {
+				peers[ids[j]] = 0
+				row[j] = true
+			}
+		}
+		blk := bpv7.NewDTLSRBlock(bpv7.DTLSRPeerData{ID: ids[src], Timestamp: bpv7.DtnTime(ts), Peers: peers})
+		b := dataBundle(names[src], dtlsrBroadcastAddress, uint64(u), func(bl *bpv7.BundleBuilder) { bl.Canonical(blk) })
+		d.NotifyNewBundle(NewBundleDescriptorFromBundle(b, c.store))
+		if !have[src] || ts > haveTs[src] {
+			have[src], haveTs[src] = true, ts
+			adj[src] = row
+		}
+	}
+	d.recomputeCron()
+	// reachability from each node
+	reachFrom := func(s int) [nn]bool {
+		var r [nn]bool
+		r[s] = true
+		for round := 0; round < nn; round++ {
+			for i := 0; i < nn; i++ {
+				for j := 0; j < nn; j++ {
+					if r[i] && adj[i][j] {
+						r[j] = true
+					}
+				}
+			}
+		}
+		return r
+	}
+	r0 := reachFrom(0)
+	d.dataMutex.RLock()
+	table := d.routingTable
+	d.dataMutex.RUnlock()
+	for x := 1; x < nn; x++ {
+		hop, ok := table[ids[x]]
+		verif.Assert(ok == r0[x], "a destination is in the routing table exactly when the link-state graph known to the node contains a path to it")
+		if !ok {
+			continue
+		}
+		hi := -1
+		for k := 1; k < nn; k++ {
+			if ids[k] == hop {
+				hi = k
+			}
+		}
+		verif.Assert(hi > 0 && adj[0][hi], "the next hop is one of the node's own neighbours")
+		if hi > 0 {
+			verif.Assert(reachFrom(hi)[x], "the next hop lies on a path to the destination")
+		}
+	}
+	verif.Reach("end")
+}
